@@ -1253,6 +1253,16 @@ def run(repo, chk, tier):
     done = check_lookup(repo, chk, table_name, table, entries, blocks)
     scan_literal_tables(repo, chk)
     check_m_grid(repo, chk)
+    from .c12_su2 import check_su2
+
+    check_su2(repo, chk)
+    from .c12_coef import check_cg_coef
+
+    check_cg_coef(repo, chk, tier, cg_sq)
+    from ..cacheown import check_cache_ownership
+
+    # small_d_weight and the delta-index tables are memoised per spin and shared by every D-matrix evaluation
+    check_cache_ownership(repo, chk, ["tf_pwa/dfun.py", "tf_pwa/cov_ten_ir.py"], 5, 5)
     chk.require_count("E5-cg", MIN_ENTRIES)
     if done and not any(v["rule"] in ("E5-swap", "E5-args") for v in chk.violations):
         chk.require_count("E5-swap", 2)
